@@ -681,3 +681,264 @@ Section Phases.
     - pose proof (find_idx_none _ _ Ek p Hp) as Hf. cbn in Hf. rewrite N.eqb_refl in Hf. discriminate.
   Qed.
 End Phases.
+
+(* ------------------------------------------------------------------ Part 6: the guard on (state before, message) *)
+Fixpoint nodupb (l : list N) : bool := match l with [] => true | x :: r => negb (mem_n x r) && nodupb r end.
+Lemma nodupb_spec l : nodupb l = true -> NoDup l.
+Proof.
+  induction l as [|x l IH]; intros H; [constructor|]. cbn [nodupb] in H. apply andb_true_iff in H. destruct H as [H1 H2].
+  constructor; [|apply IH; exact H2]. apply mem_n_false_not_in. destruct (mem_n x l); [discriminate|reflexivity].
+Qed.
+Lemma mem_n_in x l : In x l -> mem_n x l = true.
+Proof. intros H. unfold mem_n. apply existsb_exists. exists x. split; [exact H|apply N.eqb_refl]. Qed.
+
+Definition nil_b {A} (l : list A) : bool := match l with [] => true | _ => false end.
+Lemma nil_b_spec {A} (l : list A) : nil_b l = true -> l = [].
+Proof. destruct l; [reflexivity|discriminate]. Qed.
+
+Definition far_ie_ids (is : list far_ie) : list N := flat_map (fun i => match fi_id i with IOk id => [id] | IErr => [] end) is.
+Definition qer_ie_ids (is : list qer_ie) : list N := flat_map (fun i => match qi_id i with IOk id => [id] | IErr => [] end) is.
+
+Section Guard.
+  Variable burst : N -> N -> N -> N.
+
+  (* the six parse loops of the handler; the number says which loop stopped (0 = all completed) *)
+  Definition mod_loops (a : agent) (c : conn) (s0 : session) (seid : N)
+             (cp : list pdr_ie) (cf : list far_ie) (cq : list qer_ie) (up : list pdr_ie) (uf : list far_ie) (uq : list qer_ie) : work * nat :=
+    let w0 := Work (s_pdrs s0) (s_fars s0) (s_qers s0) (a_pool a) [] [] [] [] in
+    match mod_create_p cp seid (c_pfds c) w0 with
+    | (w1, false) => (w1, 1%nat)
+    | (w1, true) =>
+    match mod_create_f cf seid (g_access (a_cfg a)) (g_core (a_cfg a)) w1 with
+    | (w2, false) => (w2, 2%nat)
+    | (w2, true) =>
+    match mod_create_q cq seid w2 with
+    | (w3, false) => (w3, 3%nat)
+    | (w3, true) =>
+    match mod_update_p up seid (c_pfds c) w3 with
+    | (w4, false) => (w4, 4%nat)
+    | (w4, true) =>
+    match mod_update_f uf seid (g_access (a_cfg a)) (g_core (a_cfg a)) w4 with
+    | (w5, false) => (w5, 5%nat)
+    | (w5, true) =>
+    match mod_update_q uq seid w5 with
+    | (w6, false) => (w6, 6%nat)
+    | (w6, true) => (w6, 0%nat)
+    end end end end end end.
+
+  Definition is_some {A} (o : option A) : bool := match o with Some _ => true | None => false end.
+
+  (* all loops completed: what is asked of the stored session [s0], the message and the lists [w6] the loops produced *)
+  Definition late_ok (a : agent) (seid : N) (s0 : session) (w6 : work)
+             (cp : list pdr_ie) (cf : list far_ie) (cq : list qer_ie) (up : list pdr_ie) (uf : list far_ie) (uq : list qer_ie)
+             (rp rf rq : list (acc N)) : bool :=
+    (* no Update PDR *)
+    nil_b up &&
+    (* stored FARs / QERs named by an update carry the session's SEID; such a QER is application level (an Update QER
+       is written to the application table) *)
+    forallb (fun f => negb (mem_n (a_id f) (far_ie_ids uf)) || (a_fseid f =? seid)) (view (s_fars s0)) &&
+    forallb (fun q => negb (mem_n (q_id q) (qer_ie_ids uq)) || ((q_level q =? 0) && (q_fseid q =? seid))) (view (s_qers s0)) &&
+    (* created PDR ids are fresh; the FARs (QERs) written by the message have pairwise distinct ids: created ones are
+       fresh, no id is updated twice, nothing is created and updated in the same message *)
+    (nil_b cp || nodupb (map p_id (view (w_p w6)))) &&
+    nodupb (map a_id (w_addf w6)) && nodupb (map q_id (w_addq w6)) &&
+    (* MarkSessionQer relabels nothing: neither in the session's lists nor in the message's QER list *)
+    mark_stable (view (w_p w6)) (view (w_q w6)) && mark_stable (view (w_p w6)) (w_addq w6) &&
+    (* every Remove id resolves *)
+    (let '(_, _, r) := mod_remove_p rp (w_p w6) (a_teids a) [] in is_some r) &&
+    is_some (snd (mod_remove_f rf (w_f w6) [])) && is_some (snd (mod_remove_q rq (w_q w6) [])) &&
+    (* creations and removals do not come in the same message *)
+    ((nil_b cp && nil_b cf && nil_b cq) || (nil_b rp && nil_b rf && nil_b rq)).
+End Guard.
+
+(* ------------------------------------------------------------------ Part 7: what the loops produce, on views *)
+Section LoopFacts.
+  Variable burst : N -> N -> N -> N.
+
+  Lemma fwd_loop_keeps x y : forall els f0, a_id (fwd_loop els x y f0) = a_id f0 /\ a_fseid (fwd_loop els x y f0) = a_fseid f0.
+  Proof.
+    induction els as [|e els IH]; intros f0; cbn [fwd_loop]; [split; reflexivity|].
+    destruct e as [[|[t v]]|[|dd]|[|fl]|]; try apply IH; try (destruct (IH (Far (a_id f0) (a_fseid f0) 0 (a_em f0) (a_action f0) (a_ttype f0) (a_tsrc f0) (a_tdst f0) (a_teid f0) (a_tport f0))) as [A B]; split; assumption).
+    - match goal with |- context [fwd_loop els x y ?g] => destruct (IH g) as [A B] end. split; assumption.
+    - match goal with |- context [fwd_loop els x y ?g] => destruct (IH g) as [A B] end. split; assumption.
+    - destruct (has2nd_bit fl); [|apply IH].
+      match goal with |- context [fwd_loop els x y ?g] => destruct (IH g) as [A B] end. split; assumption.
+  Qed.
+
+  Lemma parse_far_id i l x y u f : parse_far i l x y u = Some f -> fi_id i = IOk (a_id f) /\ a_fseid f = l.
+  Proof.
+    unfold parse_far. destruct (fi_id i) as [|id]; [discriminate|]. destruct (fi_action i) as [|act]; [discriminate|].
+    destruct (act =? 0); [discriminate|].
+    destruct u.
+    - destruct (fi_fwd_u i) as [|els]; [discriminate|]. intros H; inversion H.
+      destruct (fwd_loop_keeps x y els (Far id l 0 false act 0 0 0 0 0)) as [A B]. rewrite A, B. split; reflexivity.
+    - destruct (negb (N.land act 2 =? 0)).
+      + destruct (fi_fwd_c i) as [|els]; [discriminate|]. intros H; inversion H.
+        destruct (fwd_loop_keeps x y els (Far id l 0 false act 0 0 0 0 0)) as [A B]. rewrite A, B. split; reflexivity.
+      + intros H; inversion H. split; reflexivity.
+  Qed.
+  Lemma parse_qer_id i l q : parse_qer i l = Some q -> qi_id i = IOk (q_id q) /\ q_fseid q = l /\ q_level q = 0.
+  Proof. unfold parse_qer. destruct (qi_id i); [discriminate|]. intros H; inversion H. repeat split; reflexivity. Qed.
+
+  Lemma parsed_fars is l x y u fs f :
+    parse_all (fun i => parse_far i l x y u) is = Some fs -> In f fs -> In (a_id f) (far_ie_ids is) /\ a_fseid f = l.
+  Proof.
+    intros H Hf. destruct (parse_all_in _ _ _ _ H Hf) as (i & Hi & Ei). destruct (parse_far_id _ _ _ _ _ _ Ei) as [A B].
+    split; [|exact B]. unfold far_ie_ids. apply in_flat_map. exists i. split; [exact Hi|]. rewrite A. left. reflexivity.
+  Qed.
+  Lemma parsed_qers is l qs q :
+    parse_all (fun i => parse_qer i l) is = Some qs -> In q qs -> In (q_id q) (qer_ie_ids is) /\ q_fseid q = l /\ q_level q = 0.
+  Proof.
+    intros H Hq. destruct (parse_all_in _ _ _ _ H Hq) as (i & Hi & Ei). destruct (parse_qer_id _ _ _ Ei) as (A & B & C).
+    split; [|split; assumption]. unfold qer_ie_ids. apply in_flat_map. exists i. split; [exact Hi|]. rewrite A. left. reflexivity.
+  Qed.
+
+  Lemma mod_loops_done a c s0 seid cp cf cq up uf uq w6 :
+    mod_loops a c s0 seid cp cf cq up uf uq = (w6, 0%nat) ->
+    exists w1 w2 w3 w4 w5,
+      mod_create_p cp seid (c_pfds c) (Work (s_pdrs s0) (s_fars s0) (s_qers s0) (a_pool a) [] [] [] []) = (w1, true) /\
+      mod_create_f cf seid (g_access (a_cfg a)) (g_core (a_cfg a)) w1 = (w2, true) /\
+      mod_create_q cq seid w2 = (w3, true) /\
+      mod_update_p up seid (c_pfds c) w3 = (w4, true) /\
+      mod_update_f uf seid (g_access (a_cfg a)) (g_core (a_cfg a)) w4 = (w5, true) /\
+      mod_update_q uq seid w5 = (w6, true).
+  Proof.
+    unfold mod_loops. intros H.
+    destruct (mod_create_p cp seid (c_pfds c) _) as [w1 [|]] eqn:E1; [|discriminate].
+    destruct (mod_create_f cf seid _ _ w1) as [w2 [|]] eqn:E2; [|discriminate].
+    destruct (mod_create_q cq seid w2) as [w3 [|]] eqn:E3; [|discriminate].
+    destruct (mod_update_p up seid (c_pfds c) w3) as [w4 [|]] eqn:E4; [|discriminate].
+    destruct (mod_update_f uf seid _ _ w4) as [w5 [|]] eqn:E5; [|discriminate].
+    destruct (mod_update_q uq seid w5) as [w6' [|]] eqn:E6; [|discriminate].
+    inversion H; subst w6'. exists w1, w2, w3, w4, w5. repeat split; assumption.
+  Qed.
+
+  Lemma loops_facts a c s0 seid cp cf cq uf uq w6 :
+    mod_loops a c s0 seid cp cf cq [] uf uq = (w6, 0%nat) ->
+    exists ps fs qs ups uqs,
+      length ps = length cp /\
+      parse_all (fun i => parse_far i seid (g_access (a_cfg a)) (g_core (a_cfg a)) false) cf = Some fs /\
+      parse_all (fun i => parse_qer i seid) cq = Some qs /\
+      parse_all (fun i => parse_far i seid (g_access (a_cfg a)) (g_core (a_cfg a)) true) uf = Some ups /\
+      parse_all (fun i => parse_qer i seid) uq = Some uqs /\
+      view (w_p w6) = view (s_pdrs s0) ++ ps /\ w_addp w6 = map p_id ps /\
+      view (w_f w6) = fst (upd_list a_id ups (view (s_fars s0) ++ fs)) /\
+      w_addf w6 = fs ++ snd (upd_list a_id ups (view (s_fars s0) ++ fs)) /\
+      view (w_q w6) = fst (upd_list q_id uqs (view (s_qers s0) ++ qs)) /\
+      w_addq w6 = qs ++ snd (upd_list q_id uqs (view (s_qers s0) ++ qs)).
+  Proof.
+    intros H. destruct (mod_loops_done _ _ _ _ _ _ _ _ _ _ _ H) as (w1 & w2 & w3 & w4 & w5 & H1 & H2 & H3 & H4 & H5 & H6).
+    destruct (create_p_spec _ _ _ _ _ H1) as (ps & pl & -> & Lp).
+    destruct (create_f_spec _ _ _ _ _ _ H2) as (fs & Pf & ->).
+    destruct (create_q_spec _ _ _ _ H3) as (qs & Pq & ->).
+    cbn [mod_update_p] in H4. inversion H4; subst w4; clear H4.
+    destruct (update_f_spec _ _ _ _ _ _ H5) as (ups & Pu & A1 & A2 & A3 & A4 & A5 & A6 & A7).
+    destruct (update_q_spec _ _ _ _ H6) as (uqs & Pv & B1 & B2 & B3 & B4 & B5 & B5' & B6 & B7).
+    cbn [w_p w_f w_q w_pool w_addp w_addf w_addq w_marks app] in *.
+    exists ps, fs, qs, ups, uqs.
+    rewrite A2 in B6, B7. rewrite A5 in B7. rewrite B1, A1, B4, A4, B2, A6, B5, A7, B6, B7. rewrite !view_app_slice.
+    repeat split; try assumption; reflexivity.
+  Qed.
+End LoopFacts.
+
+(* ------------------------------------------------------------------ Part 8: the per-step lemma for a modification on
+   which every loop completes (accepted under the guard) *)
+Section Step.
+  Variable burst : N -> N -> N -> N.
+
+  Lemma forallb_in {A} (f : A -> bool) l x : forallb f l = true -> In x l -> f x = true.
+  Proof. intros H Hx. apply (proj1 (forallb_forall f l) H x Hx). Qed.
+
+  Lemma mod_late_image a c seid cpf cp cf cq up uf uq rp rf rq s0 w6 rest a' c' o :
+    find_session seid (c_sessions c) = Some s0 ->
+    mod_loops a c s0 seid cp cf cq up uf uq = (w6, 0%nat) ->
+    late_ok a seid s0 w6 cp cf cq up uf uq rp rf rq = true ->
+    handle_mod burst a c seid cpf cp cf cq up uf uq rp rf rq = Done (a', c', o) ->
+    is_image (a_tables a) (session_cmds burst s0 ++ rest) ->
+    NoDup (map tg (session_cmds burst s0)) -> disjoint_from (session_cmds burst s0) rest ->
+    exists s', c_sessions c' = replace_session s' (c_sessions c) /\ s_lseid s' = s_lseid s0 /\
+      a_tables a' = apply_cmds (o_cmds o) (a_tables a) /\ (exists r, o_reply o = Some (RMod r CAUSE_OK)) /\
+      (NoDup (map tg (session_cmds burst s')) -> disjoint_from (session_cmds burst s') rest ->
+       is_image (a_tables a') (session_cmds burst s' ++ rest)).
+  Proof.
+    intros Hf HL HG H Hi Hn0 Hd0. unfold late_ok in HG.
+    apply andb_true_iff in HG; destruct HG as [HG G12]. apply andb_true_iff in HG; destruct HG as [HG G11].
+    apply andb_true_iff in HG; destruct HG as [HG G10]. apply andb_true_iff in HG; destruct HG as [HG G9].
+    apply andb_true_iff in HG; destruct HG as [HG G8]. apply andb_true_iff in HG; destruct HG as [HG G7].
+    apply andb_true_iff in HG; destruct HG as [HG G6]. apply andb_true_iff in HG; destruct HG as [HG G5].
+    apply andb_true_iff in HG; destruct HG as [HG G4]. apply andb_true_iff in HG; destruct HG as [HG G3].
+    apply andb_true_iff in HG; destruct HG as [G1 G2].
+    apply nil_b_spec in G1. subst up.
+    destruct (loops_facts _ _ _ _ _ _ _ _ _ _ HL) as (ps & fs & qs & ups & uqs & Lp & Pf & Pq & Pu & Pv & VP & AP & VF & AF & VQ & AQ).
+    destruct (mod_loops_done _ _ _ _ _ _ _ _ _ _ _ HL) as (w1 & w2 & w3 & w4 & w5 & H1 & H2 & H3 & H4 & H5 & H6).
+    destruct (mod_remove_p rp (w_p w6) (a_teids a) []) as [[wp3 g3] [dp|]] eqn:R1; [|discriminate G9].
+    destruct (mod_remove_f rf (w_f w6) []) as [wf3 [df|]] eqn:R2; [|discriminate G10].
+    destruct (mod_remove_q rq (w_q w6) []) as [wq3 [dq|]] eqn:R3; [|discriminate G11].
+    rewrite (handle_mod_late burst _ _ _ cpf _ _ _ _ _ _ _ _ _ _ _ _ _ _ _ _ _ _ _ _ _ _ _ Hf H1 H2 H3 H4 H5 H6 G7 G8 R1 R2 R3) in H.
+    inversion H; subst a' c' o; clear H.
+    exists (Sess (s_lseid s0) (new_rseid cpf s0) wp3 wf3 wq3).
+    split; [reflexivity|]. split; [reflexivity|]. split; [cbn [a_tables o_cmds]; rewrite apply_cmds_app; reflexivity|].
+    split; [eexists; reflexivity|].
+    intros Hn' Hd'. cbn [a_tables]. unfold session_cmds in *. cbn [s_pdrs s_fars s_qers] in *.
+    set (P0 := view (s_pdrs s0)) in *. set (F0 := view (s_fars s0)) in *. set (Q0 := view (s_qers s0)) in *.
+    pose proof (remove_p_perm _ _ _ _ _ _ _ R1) as PP. pose proof (remove_f_perm _ _ _ _ _ R2) as PF. pose proof (remove_q_perm _ _ _ _ _ R3) as PQ.
+    rewrite app_nil_r in PP, PF, PQ.
+    (* targets are preserved by the updates *)
+    assert (map ftg (view (w_f w6)) = map ftg (F0 ++ fs)) as KFm.
+    { rewrite VF. apply (upd_list_keys a_id far0 ftg). intros u x Hu Hx Hid. apply ftg_eq; [exact Hid|].
+      destruct (parsed_fars _ _ _ _ _ _ _ Pu Hu) as [Uid Ufs]. rewrite Ufs.
+      apply in_app_or in Hx. destruct Hx as [Hx|Hx]; [apply in_app_or in Hx; destruct Hx as [Hx|Hx]|].
+      - pose proof (forallb_in _ _ _ G2 Hx) as Hg. cbn beta in Hg. rewrite Hid, (mem_n_in _ _ Uid) in Hg. cbn in Hg. apply N.eqb_eq. exact Hg.
+      - apply (parsed_fars _ _ _ _ _ _ _ Pf Hx).
+      - apply (parsed_fars _ _ _ _ _ _ _ Pu Hx). }
+    assert (map (qtg burst) (view (w_q w6)) = map (qtg burst) (Q0 ++ qs)) as KQm.
+    { rewrite VQ. apply (upd_list_keys q_id qer0 (qtg burst)). intros u x Hu Hx Hid.
+      destruct (parsed_qers _ _ _ _ Pv Hu) as (Uid & Ufs & Ulv).
+      assert (q_fseid x = seid /\ q_level x = 0) as [Xfs Xlv].
+      { apply in_app_or in Hx. destruct Hx as [Hx|Hx]; [apply in_app_or in Hx; destruct Hx as [Hx|Hx]|].
+        - pose proof (forallb_in _ _ _ G3 Hx) as Hg. cbn beta in Hg. rewrite Hid, (mem_n_in _ _ Uid) in Hg. cbn in Hg.
+          apply andb_true_iff in Hg. destruct Hg as [Hg1 Hg2]. split; apply N.eqb_eq; assumption.
+        - destruct (parsed_qers _ _ _ _ Pq Hx) as (_ & A & B). split; assumption.
+        - destruct (parsed_qers _ _ _ _ Pv Hx) as (_ & A & B). split; assumption. }
+      apply qtg_eq; [exact Hid|congruence|rewrite Xlv, Ulv; reflexivity]. }
+    (* the intermediate lists (after the add batch) are inside the envelope *)
+    assert (NoDup (map tg (add_cmds burst (view (w_p w6)) (view (w_f w6)) (view (w_q w6)))) /\
+            disjoint_from (add_cmds burst (view (w_p w6)) (view (w_f w6)) (view (w_q w6))) rest) as [Hn1 Hd1].
+    { apply orb_true_iff in G12. destruct G12 as [Gc|Gr].
+      - apply andb_true_iff in Gc. destruct Gc as [Gc Gc3]. apply andb_true_iff in Gc. destruct Gc as [Gc1 Gc2].
+        apply nil_b_spec in Gc1, Gc2, Gc3. subst cp cf cq. cbn [parse_all] in Pf, Pq. inversion Pf; subst fs. inversion Pq; subst qs.
+        destruct ps; [|discriminate Lp]. rewrite !app_nil_r in *.
+        assert (map tg (add_cmds burst (view (w_p w6)) (view (w_f w6)) (view (w_q w6))) = map tg (add_cmds burst P0 F0 Q0)) as Et.
+        { rewrite !tg_add_cmds. fold ftg. fold (qtg burst). rewrite VP, KFm, KQm. reflexivity. }
+        split; [rewrite Et; exact Hn0|]. apply disjoint_from_tg. rewrite Et. apply disjoint_from_tg. exact Hd0.
+      - apply andb_true_iff in Gr. destruct Gr as [Gr Gr3]. apply andb_true_iff in Gr. destruct Gr as [Gr1 Gr2].
+        apply nil_b_spec in Gr1, Gr2, Gr3. subst rp rf rq. cbn in R1, R2, R3. inversion R1; subst. inversion R2; subst. inversion R3; subst.
+        split; assumption. }
+    eapply phaseB; [|exact Hn1|exact Hd1|exact PP|exact PF|exact PQ].
+    apply phaseA with (P0 := P0) (F0 := F0) (Q0 := Q0); try assumption.
+    - intros p Hp. eapply lookup_pdrs_in. exact Hp.
+    - intros f Hf'. rewrite AF in Hf'. rewrite VF. apply (upd_list_stays a_id far0 ups (F0 ++ fs) fs); [| |exact Hf'].
+      + rewrite <- AF. apply nodupb_spec. exact G5.
+      + intros x Hx. apply in_or_app. right. exact Hx.
+    - intros q Hq. rewrite AQ in Hq. rewrite VQ. apply (upd_list_stays q_id qer0 uqs (Q0 ++ qs) qs); [| |exact Hq].
+      + rewrite <- AQ. apply nodupb_spec. exact G6.
+      + intros x Hx. apply in_or_app. right. exact Hx.
+    - intros p Hp. rewrite VP in Hp. apply in_app_or in Hp. destruct Hp as [Hp|Hp]; [right; exact Hp|left].
+      apply lookup_pdrs_finds.
+      + apply orb_true_iff in G4. destruct G4 as [G4|G4]; [|apply nodupb_spec; exact G4].
+        apply nil_b_spec in G4. subst cp. destruct ps; [destruct Hp|discriminate Lp].
+      + rewrite VP. apply in_or_app. right. exact Hp.
+      + rewrite AP. apply in_map. exact Hp.
+    - intros f Hf'. rewrite VF in Hf'. rewrite AF. destruct (upd_list_from a_id _ _ _ Hf') as [Hx|Hx].
+      + apply in_app_or in Hx. destruct Hx as [Hx|Hx]; [right; exact Hx|left; apply in_or_app; left; exact Hx].
+      + left. apply in_or_app. right. exact Hx.
+    - intros q Hq. rewrite VQ in Hq. rewrite AQ. destruct (upd_list_from q_id _ _ _ Hq) as [Hx|Hx].
+      + apply in_app_or in Hx. destruct Hx as [Hx|Hx]; [right; exact Hx|left; apply in_or_app; left; exact Hx].
+      + left. apply in_or_app. right. exact Hx.
+    - intros p Hp. exists p. split; [rewrite VP; apply in_or_app; left; exact Hp|reflexivity].
+    - intros f Hf'. assert (In (ftg f) (map ftg (view (w_f w6)))) as Hin by (rewrite KFm; apply in_map; apply in_or_app; left; exact Hf').
+      apply in_map_iff in Hin. destruct Hin as (f' & E & Hf''). exists f'. split; assumption.
+    - intros q Hq. assert (In (qtg burst q) (map (qtg burst) (view (w_q w6)))) as Hin by (rewrite KQm; apply in_map; apply in_or_app; left; exact Hq).
+      apply in_map_iff in Hin. destruct Hin as (q' & E & Hq''). exists q'. split; assumption.
+  Qed.
+End Step.
